@@ -168,6 +168,9 @@ def gen_asset_rows(rng, asset, exchanges, holders, flags, start_year):
             gap = dt.timedelta(days=rng.randint(200, 500), seconds=rng.randint(1, 86399))
         if flags.get("micro") and rng.random() < 0.3:
             gap += dt.timedelta(microseconds=rng.randint(1, 999999))
+        if flags.get("micro") and rng.random() < 0.25:
+            # distinct instants inside one second / one minute (code that truncates timestamps to a coarser resolution)
+            gap = dt.timedelta(microseconds=rng.randint(1, 400000)) if rng.random() < 0.7 else dt.timedelta(seconds=rng.randint(1, 50))
         t2 = t + gap
         if flags.get("boundaries", True) and rng.random() < 0.12:
             # land within +/-14 h of a New Year (UTC): the local year/date of the event then depends on the offset it is written with
@@ -193,6 +196,8 @@ def gen_asset_rows(rng, asset, exchanges, holders, flags, start_year):
         r = base("IN")
         e, h = rng.choice(accounts)
         ttype = force_type or (rng.choice(EARN_TYPES) if rng.random() < (0.3 if not flags.get("income_only") else 1.0) else rng.choice(["BUY", "BUY", "BUY", "BUY", "GIFT", "DONATE"]))
+        if not force_type and flags.get("in_focus") and rng.random() < 0.9:
+            ttype = rng.choice(flags["in_focus"])
         amt = _amount(rng, style)
         price = _price(rng)
         r.update({"exchange": e, "holder": h, "transaction_type": ttype, "spot_price": price, "crypto_in": amt,
@@ -235,6 +240,8 @@ def gen_asset_rows(rng, asset, exchanges, holders, flags, start_year):
         e, h = account or rng.choice(pos)
         b = bal[(e, h)]
         ttype = force_type or rng.choice(["SELL", "SELL", "SELL", "SELL", "GIFT", "DONATE", "FEE", "LOST", "STAKING"])
+        if not force_type and flags.get("out_focus") and rng.random() < 0.9:
+            ttype = rng.choice(flags["out_focus"])
         total = b if (everything or rng.random() < 0.2) else _frac(rng, b, style)
         price = _price(rng)
         if ttype == "FEE":
@@ -293,11 +300,12 @@ def gen_asset_rows(rng, asset, exchanges, holders, flags, start_year):
             add_in()
         return rows
     add_in(force_type=None if rng.random() < 0.25 else "BUY")
+    p_in, p_out = flags.get("mix") or (0.42, 0.8)
     for _ in range(n - 1):
         k = rng.random()
-        if k < 0.42:
+        if k < p_in:
             add_in()
-        elif k < 0.8:
+        elif k < p_out:
             add_out()
         else:
             add_intra()
